@@ -284,6 +284,19 @@ impl Property for C03 {
             f
         };
         if origin == "prog" {
+            // known class (the defect recorded as KF-C01-1): under normalize_doc_attributes a doc
+            // attribute that shares its line with an item rustfmt cannot lay out swallows the
+            // item's header, comments included
+            if opt_bool(&opts, "normalize_doc_attributes", false) && crate::props::c01::doc_attr_shares_line(src) {
+                if !judge_known {
+                    o.excluded.push("known-class:doc-attribute-swallows-item".into());
+                    return o;
+                }
+                let lost = case["comments"].as_array().map(|a| a.iter().any(|cm| !out_comments.iter().any(|c| Some(c.as_str()) == cm["text"].as_str()))).unwrap_or(false);
+                if lost {
+                    return Outcome::fail("lost:doc-attribute-swallows-item", format!("a comment of the item header went into the doc comment made from the attribute\n{src}\n--->\n{}", r.text)).nontrivial(true);
+                }
+            }
             // unique payloads: exactly once, same text
             let list = case["comments"].as_array().cloned().unwrap_or_default();
             if list.is_empty() {
